@@ -328,3 +328,32 @@ Proof.
   - rewrite E. cbn [snd]. apply shift_ok_spec in E. lia.
   - cbn [snd]. split; [cbn; lia|]. intros H. apply shift_ok_spec in H. congruence.
 Qed.
+
+(* ---------- instances (the hypotheses of the lemmas above are satisfiable) ---------- *)
+(* 0.1 = 0x1.999999999999ap-4 = 7205759403792794 * 2^-56 *)
+Example quantise_scale_ex_tenth :
+  0 <= 31 - (-56 + Z.log2 7205759403792794 + 1) <= 62 /\
+  GenScaling.quantise_scale (Dy 7205759403792794 (-56)) = (1717986918, 34) /\
+  tfl_quantize_multiplier (Dy 7205759403792794 (-56)) = (1717986918, -3) /\
+  GenScaling.reduced_quantise_scale (Dy 7205759403792794 (-56)) = (26214, 18).
+Proof. vm_compute. repeat split; congruence. Qed.
+
+(* the largest double below 1: the significand rounds up to 2^31; the reference renormalises *)
+Example quantise_scale_ex_renorm :
+  GenScaling.quantise_scale (Dy (2 ^ 53 - 1) (-53)) = (2 ^ 31, 31) /\
+  tfl_quantize_multiplier (Dy (2 ^ 53 - 1) (-53)) = (2 ^ 30, 1).
+Proof. vm_compute. split; reflexivity. Qed.
+
+(* 2^40 and 2^-34 are outside the range, 2^-33 is the last scale inside (shift 63) *)
+Example quantise_scale_ex_degrade :
+  ~ (0 <= 31 - (40 + Z.log2 1 + 1) <= 63) /\ GenScaling.quantise_scale (Dy 1 40) = (0, 16) /\
+  GenScaling.quantise_scale (Dy 1 (-34)) = (0, 16) /\
+  GenScaling.reduced_quantise_scale (Dy 1 40) = (0, 0) /\
+  31 - (-33 + Z.log2 1 + 1) = 63 /\
+  GenScaling.quantise_scale (Dy 1 (-33)) = (2 ^ 30, 63) /\ tfl_quantize_multiplier (Dy 1 (-33)) = (0, 0).
+Proof. split; [change (Z.log2 1) with 0; lia|]. vm_compute. repeat split; congruence. Qed.
+
+(* 40000.0 = 625 * 2^6 >= 2^15: the reduced shift is negative *)
+Example reduced_quantise_scale_ex_negative_shift :
+  GenScaling.reduced_quantise_scale (Dy 625 6) = (20000, -1).
+Proof. vm_compute. reflexivity. Qed.
